@@ -282,7 +282,79 @@ def via_grouped(defn, how):
     return grp
 
 
+_TWIN = [None]
+
+
+def via_after_twin(defn, channel, tmp):
+    """The definition arrives in a stream (binary / JSON lines) that has ALREADY announced a valid definition with the
+    same name and the same identifier (the 32-bit value is taken over the plain concatenation of field names and
+    types, so different field lists can share it): being known under that identifier must not let the second
+    definition in unvalidated. Returns the descriptor of the record that follows the second definition."""
+    from flow.record import RecordStreamReader
+    from flow.record.adapter.jsonfile import JsonfileReader
+
+    name, fields = defn
+    twin = _TWIN[0]
+    if refcodec.descriptor_hash(name, fields) != refcodec.descriptor_hash(name, twin):
+        raise RuntimeError("harness: twin %r does not share the identifier of %r" % (twin, fields))
+    ident = [name, refcodec.descriptor_hash(name, fields)]
+    if channel == "stream-after-twin":
+        w = refcodec.Widths()
+        data = refcodec.HEADER_FRAME
+        data += refcodec.frame(refcodec.pack(refcodec.descriptor_to_ext(name, twin, w), w))
+        data += refcodec.frame(refcodec.pack(refcodec.ext14(refcodec.T_RECORD, [ident, [None] * len(twin) + [None, None, None, 1]], w), w))
+        data += refcodec.frame(refcodec.pack(refcodec.descriptor_to_ext(name, fields, w), w))
+        data += refcodec.frame(refcodec.pack(refcodec.ext14(refcodec.T_RECORD, [ident, [None] * len(fields) + [None, None, None, 1]], w), w))
+        recs = list(RecordStreamReader(io.BytesIO(data)))
+    else:
+        p = os.path.join(tmp, "d.json")
+        with open(p, "w", encoding="utf-8", errors="surrogatepass") as f:
+            for fl in (twin, fields):
+                rec = {"_type": "record", "_recorddescriptor": ident}
+                for t, n in fl:
+                    rec.setdefault(n, None)
+                f.write(json.dumps({"_type": "recorddescriptor", "_data": [name, [list(x) for x in fl]]}) + "\n")
+                f.write(json.dumps(rec) + "\n")
+        rd = JsonfileReader(p)
+        try:
+            recs = list(rd)
+        finally:
+            rd.close()
+    if len(recs) != 2:
+        raise RuntimeError("after-twin channel yielded %d records" % len(recs))
+    return recs[1]._desc
+
+
+def after_twin_cases(tier):
+    pairs = [
+        # (valid twin, definition outside the grammar with the same name + concatenation of field names and types)
+        ([("string[]", "a"), ("string", "b")], [("string", "astring[]b")]),
+        ([("string", "a"), ("string", "b")], [("g", "astringbstrin")]),
+        ([("string", "x")], [("ring", "xst")]),
+        ([("string", "x")], [("", "xstring")]),
+        ([("string", "x")], [("xstring", "")]),
+        ([("varint", "a"), ("string", "b")], [("tring", "avarintbs")]),
+        ([("net.ipaddress", "ip"), ("string", "s")], [("ipaddress", "ipnet."), ("string", "s")]),
+        ([("string", "a"), ("string", "bb")], [("string", "a"), ("ng", "bbstri")]),
+        ([("string", "os"), ("varint", "n")], [("varint", "osstringn")]),
+        ([("string", "a"), ("uint16", "b")], [("string", "a"), ("16", "buint")]),
+        ([("string", "a"), ("uint16", "b")], [("string", "a"), ("uint16", "b"), ("", "")]),
+        ([("string", "a"), ("string", "x__y")], [("string", "astringx__y")]),
+        ([("bytes", "import"), ("string", "os")], [("string", "importbytesos")]),
+        ([("string", "a"), ("varint", "b")], [("string", "a"), ("varint", "b"), ("", ""), ("", "")]),
+    ]
+    pairs = [p for p in pairs if p[1]]
+    cases = []
+    for twin, hostile in pairs:
+        for nm in ("t/seed", "demo"):
+            for ch in ("stream-after-twin", "json-after-twin"):
+                cases.append({"name": nm, "fields": hostile, "channel": ch, "role": "after-colliding-twin", "twin": twin})
+    return cases
+
+
 def deliver(channel, defn, tmp):
+    if channel in ("stream-after-twin", "json-after-twin"):
+        return via_after_twin(defn, channel, tmp)
     if channel in ("grouped-constructor", "grouped-stream"):
         return via_grouped(defn, channel)
     if channel in ("constructor-none", "stream-nil-fields", "json-null-fields"):
@@ -323,7 +395,8 @@ def check_definition(case, ctx):
     import flow.record.base as _base
 
     _base._generate_record_class.cache_clear()  # every case reaches exec (keeps the monitor deterministic)
-    tmp = ctx.fresh_dir() if channel in ("json", "avro") else None
+    tmp = ctx.fresh_dir() if channel in ("json", "avro", "json-after-twin") else None
+    _TWIN[0] = [tuple(f) for f in case["twin"]] if case.get("twin") else None
     try:
         res = impl(deliver, channel, defn, tmp)
     finally:
@@ -335,7 +408,9 @@ def check_definition(case, ctx):
         raise RuntimeError("harness: " + str(res.exc))
     # monitors first: nothing from the definition may be executed or imported, accepted or not
     for src in EXEC_LOG:
-        if channel.startswith("grouped-"):
+        if channel.endswith("-after-twin"):
+            check_exec_source(src, defn, res.ok, where, extra_fields=tuple(n for _, n in _TWIN[0]))
+        elif channel.startswith("grouped-"):
             # the harness' own member types (t/member, t/other with field zz_n) are generated inside the delivery
             check_exec_source(src, defn, res.ok, where, extra_fields=("zz_n",), extra_classes=("t_member", "t_other"))
         else:
@@ -684,5 +759,6 @@ def parts(tier):
         Part("duplicate-names-hostile-type", check_definition, cases=duplicate_name_cases, exhaustive=True),
         Part("grouped-record-names", check_definition, cases=grouped_name_cases, exhaustive=True),
         Part("hostile-with-keyword-fields", check_definition, cases=hostile_with_keyword_cases, exhaustive=True),
+        Part("after-colliding-twin", check_definition, cases=after_twin_cases, exhaustive=True),
         Part("generated", check_definition, strategy=generated_case(), examples=(250, 20000)),
     ]
